@@ -22,6 +22,12 @@ CHECKS = {
     "C04": ("exploration", "bounded-exhaustive enumeration of balanced networks; polynomial identity of weighted sums",
             "All balanced reactions (<=3 reactants, <=3 products) over a by-construction species table and all pairs from a pool (electron spellings, gas/ice, ortho/para, isotopologues): element- and charge-weighted sums of the emitted ydot polynomials are identically zero; GetElementAbund text equals the count-weighted abundance sum.",
             "Compositions come from the table the names were built from, never from naunet's parser.", "DESIGN.md §2 C04"),
+    "C05": ("exploration", "bounded-exhaustive enumeration of (format,type,alpha,beta,gamma); rendered EvalRates compiled with g++ and evaluated on a physical grid vs published laws",
+            "Every (format, type/formula/code) of the gas-phase tables is reached through its own line format (own encoder -> naunet parser) and through the API, crossed with (alpha,beta,gamma) in A^3 (signed, zero, integer-valued, extreme). The rendered naunet_rates.cpp is compiled by g++ against the API shim and EvalRates is evaluated on a 36-point grid; each value must equal the published law (rel 1e-12 / same inf-nan class). Every emitted statement must be a C expression (E4, confirmed by g++).",
+            "Reference laws are my transcription (mc/ref/ratelaws.py); helper (shielding) values are taken from the compiled helpers. Coefficients/physical parameters range over finite grids, not R.", "DESIGN.md §2 C05"),
+    "C06": ("exploration", "bounded-exhaustive enumeration of window shapes x format spellings; compiled EvalRates evaluated at exact boundary doubles",
+            "All window shapes (none, 0/0, lower/upper only, both, adjacent pieces, inexact/tiny/huge bounds) in every spelling of the 6 formats and the API; compiled EvalRates is evaluated at each bound, its neighbouring doubles, mid-points and extremes: k equals the law inside the window and exactly 0.0 outside; adjacent pieces have exactly one active member at every temperature.",
+            "Window predicate as stated in the property; KROME operator spellings are read as plain bounds.", "DESIGN.md §2 C06"),
 }
 
 NOT_YET = {
